@@ -40,7 +40,7 @@ class C01(DiffProperty):
                   "ASan/UBSan build (per-call state and window bytes compared) and by decoding the implementation's frames with its own decoder")
     level_note = ("trusted: Coq kernel; hand transcription of the encoders (validated by the correspondence run); extraction + OCaml driver; harness. "
                   "The command-text framing has its own theorems (C01_text_encoder_roundtrip, C01_text_decoder_delivers: encoder for all splits/capacities, decoder for a whole text in one fragment); "
-                  "multi-fragment/multi-call command decoding and mpt_array_push itself are correspondence-only. All theorems closed under the global context.")
+                  "multi-call command decoding is proved in C03 (C03_command_history_delivers); multi-fragment iovecs of the command decoder and mpt_array_push itself are correspondence-only. All theorems closed under the global context.")
     technique = "Coq invariant proof over the resumable encoder (all splits, all capacity schedules) + differential correspondence check"
 
     def project(self, tok):
